@@ -623,7 +623,85 @@ def rule_alias(run):
     snapshot.run_alias_rule(run, "F-ALIAS")
 
 
-RULES = [rule_front, rule_back, rule_trial, rule_join, rule_literals, rule_shadow, rule_backend_sites, rule_bit_literals, rule_select_default, rule_own_value, rule_copy, rule_view_cast, rule_views, rule_ctor_width, rule_port_kinds, rule_alias]
+def rule_bit_ctor_domain(run):
+    """A Bit takes exactly the values 0 and 1 from the integer world: every int / cohdl.Integer / bool around that
+    range is either rejected or stored as LOW for 0 and HIGH for 1 - nothing outside {0, 1} is folded to a bit
+    (abstract evaluation of BitState.construct; Integer is modelled by its get_value())."""
+    run.begin("C05.bitctor", "BitState.construct: ints and cohdl.Integer values outside {0, 1} are rejected, 0 -> LOW, 1 -> HIGH, bool -> its value", floor=15)
+    from ..absint import Interp, Reject
+    bm = run.idx.mod("cohdl/_core/_bit.py")
+    f = bm.func("BitState.construct")
+
+    class _IntegerM:
+        def __init__(self, v):
+            self.v = v
+
+        def get_value(self):
+            return self.v
+
+        def __bool__(self):
+            return bool(self.v)
+
+        def __index__(self):
+            return self.v
+
+        def __int__(self):
+            return self.v
+
+        def __eq__(self, o):
+            return self.v == (o.v if isinstance(o, _IntegerM) else o)
+
+        __hash__ = None
+
+    class _BS:
+        LOW, HIGH, UNINITIALZED = "LOW", "HIGH", "UNINITIALZED"
+
+        @staticmethod
+        def from_str(x):
+            raise Reject("str")
+
+    class _Dummy:
+        pass
+
+    class _Bit(_Dummy):
+        pass
+
+    class _Bool(_Dummy):
+        pass
+
+    class _NF(_Dummy):
+        pass
+
+    t_, f_ = _Dummy(), _Dummy()
+
+    def isinst(v, t):
+        ts = t if isinstance(t, tuple) else (t,)
+        for c in ts:
+            if c is _BS:
+                if v in ("LOW", "HIGH", "UNINITIALZED"):
+                    return True
+            elif isinstance(c, type) and isinstance(v, c):
+                return True
+        return False
+    prims = {"isinstance": isinst, "Integer": _IntegerM, "true": t_, "false": f_, "BitState": _BS, "Bit": _Bit, "_Boolean": _Bool, "_NullFullType": _NF,
+             "Null": _NF(), "Full": _NF(), "bool": bool, "int": int, "str": str, "type": type}
+    samples = [("None", None, "UNINITIALZED")]
+    for v in range(-2, 4):
+        exp = {0: "LOW", 1: "HIGH"}.get(v)
+        samples.append((f"int {v}", v, exp))
+        samples.append((f"Integer({v})", _IntegerM(v), exp))
+    samples += [("True", True, "HIGH"), ("False", False, "LOW")]
+    for label, arg, exp in samples:
+        try:
+            got = Interp(bm, dict(prims)).call_function("BitState.construct", arg)
+        except Reject:
+            got = None
+        ok = got == exp
+        run.ob(ok, "BitState.construct", file=bm.rel, line=f.node.lineno, detail=label, expected=exp or "rejected", found=str(got) if got is not None else "rejected")
+    run.end()
+
+
+RULES = [rule_front, rule_back, rule_trial, rule_join, rule_literals, rule_shadow, rule_backend_sites, rule_bit_literals, rule_select_default, rule_own_value, rule_copy, rule_view_cast, rule_views, rule_ctor_width, rule_port_kinds, rule_alias, rule_bit_ctor_domain]
 LEVEL = "other"
 EXPLANATION = (
     "Conversion matrices decided statically for all widths and values: (front end) the accept/reject decision and "
